@@ -84,6 +84,12 @@ GROUPS = [
                           ('swap16', 'big_endian_swap16', 'h_swap16'), ('swap32', 'big_endian_swap32', 'h_swap32'),
                           ('swap64', 'big_endian_swap64', 'h_swap64'), ('leswap16', 'little_endian_swap16', 'h_leswap16'),
                           ('leswap32', 'little_endian_swap32', 'h_leswap32'), ('leswap64', 'little_endian_swap64', 'h_leswap64')]
+] + [
+    dict(name='gdsii_real_decode', tu='src/gdsii.cpp', spec_headers=['spec/gdsii_real_spec.h'], models=['models/exp2_contract.h'],
+         harness='harness/c19_gdsii.c', roots=['gdstk::gdsii_real_to_double'], entry='h_gdsii_decode',
+         enforce='gdsii_real_to_double/gdsii_real_to_double_spec', replace_extern=['exp2'], kind='unbounded', uf_fp=True,
+         bound='loop-free, all 2^64 bit patterns; exp2 and the double division/multiplication uninterpreted (field extraction and formula shape are what is proved)',
+         unwind=None, timeout=600, tier='quick'),
 ]
 
 TRUSTED_BASE = [
@@ -98,5 +104,6 @@ ASSUMPTIONS = [
     'streams are in file mode (OasisStream.data == NULL, cursor == NULL, no running crc32/checksum32); the in-memory CBLOCK mode of oasis_read/oasis_write is not covered',
     'tape window of 16 bytes (single integers) or 28 bytes (g-deltas, reals) per proof, arbitrary start position inside it; each contract proves the call touches at most 10 resp. 21 bytes from its start position',
     'malloc never fails',
+    'gdsii_real_to_double: exp2, double / and * are uninterpreted functions over bit patterns; gdsii_real_from_double (log2/pow/ceil) is not covered',
 ]
 EXPLANATION = 'contract-based deductive verification with CBMC --dfcc on C lowered from the real C++'
